@@ -22,7 +22,7 @@ type triple struct{ tag, addr, cmd string }
 
 // ccHandshake: one real client handshake for (tag, addr, cmd) against a real server; `breakIt` makes
 // the server drop the connection right after reading the client's first message.
-func ccHandshake(cache *security.SessionCache, t triple, validCmds []int, breakIt bool, stall bool, explicitSid string) (neg *security.SecurityNegotiation, resumed bool, err error) {
+func ccHandshake(cache *security.SessionCache, t triple, validCmds []int, breakIt bool, stall bool, explicitSid string, clientAuth security.SecurityLevel) (neg *security.SecurityNegotiation, resumed bool, err error) {
 	ca, cb := bufpipe.Pair("10.0.0.1:1111", "10.0.0.2:9618")
 	d := 800 * time.Millisecond
 	if stall {
@@ -60,7 +60,7 @@ func ccHandshake(cache *security.SessionCache, t triple, validCmds []int, breakI
 	}()
 	var cmd int
 	fmt.Sscan(t.cmd, &cmd)
-	cc := &security.SecurityConfig{AuthMethods: toMethods([]string{"CLAIMTOBE"}), Authentication: security.SecurityPreferred,
+	cc := &security.SecurityConfig{AuthMethods: toMethods([]string{"CLAIMTOBE"}), Authentication: clientAuth,
 		CryptoMethods: toCiphers([]string{"AES"}), Encryption: security.SecurityOptional, Integrity: security.SecurityOptional,
 		Command: cmd, SessionCache: cache, PeerName: t.addr, SecurityTag: t.tag, SessionID: explicitSid}
 	a := security.NewAuthenticator(cc, cst)
@@ -74,7 +74,7 @@ func ccHandshake(cache *security.SessionCache, t triple, validCmds []int, breakI
 }
 
 func runClientCache(c *Ctx) error {
-	c.Res.Rule = "histories (2-8 steps) of real client handshakes over (tag in {none,T1,T2,srvA}) x (server address in {srvA, srvB, two sinful addresses that differ only in their ?sock= decoration, and the address srvA,srvB (contains a comma) — with tag srvA + address srvB this is the pair whose keys collided when commas were not escaped}) x (command in {60007,60008,60009}) against a real server whose post-auth ValidCommands vary, interleaved with server restart (session forgotten -> SID_NOT_FOUND), broken connections (peer closes) and stalled ones (peer goes silent, the client's deadline fires), client-side expiry (virtual time), explicit invalidation, InvalidateExpired, and handshakes that name a cached session explicitly by id under an arbitrary triple; after every step all 60 LookupByCommand routes are compared with the model and with a reference map (tag,addr,cmd) -> session kept by the spec rules; distinct by history; non-trivial = the history touches >=2 distinct triples"
+	c.Res.Rule = "histories (2-8 steps) of real client handshakes over (tag in {none,T1,T2,srvA}) x (server address in {srvA, srvB, two sinful addresses that differ only in their ?sock= decoration, and the address srvA,srvB (contains a comma) — with tag srvA + address srvB this is the pair whose keys collided when commas were not escaped}) x (command in {60007,60008,60009}) against a real server whose post-auth ValidCommands vary, the client's own authentication policy drawn from PREFERRED / NEVER / REQUIRED, interleaved with server restart (session forgotten -> SID_NOT_FOUND), broken connections (peer closes) and stalled ones (peer goes silent, the client's deadline fires), client-side expiry (virtual time), explicit invalidation, InvalidateExpired, and handshakes that name a cached session explicitly by id under an arbitrary triple; after every step all 60 LookupByCommand routes are compared with the model and with a reference map (tag,addr,cmd) -> session kept by the spec rules; distinct by history; non-trivial = the history touches >=2 distinct triples"
 	tags := []string{"", "T1", "T2", "srvA"}
 	addrs := []string{"srvA", "srvB", "<127.0.0.1:9618?sock=schedd_1>", "<127.0.0.1:9618?sock=startd_2>", "srvA,srvB"}
 	cmds := []string{"60007", "60008", "60009"}
@@ -96,6 +96,7 @@ func runClientCache(c *Ctx) error {
 		log("reset", "ok")
 		ref := map[triple]string{}  // reference map kept by the spec rules
 		expired := map[string]bool{} // sids expired on the client
+		authOf := map[string]bool{}  // was the session established with authentication
 		var sids []string
 		seen := map[triple]bool{}
 		steps := 2 + c.Rng.Intn(7)
@@ -125,7 +126,11 @@ func runClientCache(c *Ctx) error {
 						answer = "sidNotFound"
 					}
 				}
-				neg, resumed, err := ccHandshake(cache, t, vc, breakIt, stall, "")
+				// the client's own authentication policy varies: NEVER leaves an unauthenticated session in
+				// the cache, REQUIRED must not ride such a session later (it does a full handshake)
+				clientAuth := pick(c, []security.SecurityLevel{security.SecurityPreferred, security.SecurityPreferred, security.SecurityNever, security.SecurityRequired})
+				req := clientAuth == security.SecurityRequired
+				neg, resumed, err := ccHandshake(cache, t, vc, breakIt, stall, "", clientAuth)
 				var r, full string
 				full = "~|none|~|0|-"
 				var sre *security.SessionResumptionError
@@ -133,6 +138,10 @@ func runClientCache(c *Ctx) error {
 				case err == nil && resumed:
 					r = fmt.Sprintf("ok resumed sid=%s keyed=%s user=%s auth=%s", neg.SessionId, b01(len(neg.GetSharedSecret()) > 0), strOrTilde(neg.User), b01(neg.Authentication))
 					// ---- property oracle C07 ----
+					if req && !authOf[neg.SessionId] {
+						c.Violate(Violation{Property: "C03", Key: "C03:client-resumed-unauthenticated-under-required", What: "a client whose policy marks authentication REQUIRED returned success by resuming a session that was established without authentication",
+							Ops: append(append([]string{}, ops...), fmt.Sprintf("# handshake tag=%q addr=%s cmd=%s Authentication=REQUIRED", t.tag, t.addr, t.cmd)), Expected: "a full handshake in which authentication runs", Observed: "resumed " + neg.SessionId})
+					}
 					want, ok := ref[t]
 					if !ok || want != neg.SessionId || expired[neg.SessionId] {
 						c.Violate(Violation{Property: "C07", Key: "C07:reused-wrong-session", What: "client resumed a cached session that the reference map does not allow for this (tag, server, command)",
@@ -159,6 +168,7 @@ func runClientCache(c *Ctx) error {
 					full = fmt.Sprintf("%s|%s|%s|%s|%s", neg.SessionId, key, strOrTilde(neg.User), b01(neg.Authentication), strings.Join(strings.Split(neg.ValidCommands, ","), ","))
 					r = "ok full sid=" + neg.SessionId
 					sids = append(sids, neg.SessionId)
+					authOf[neg.SessionId] = neg.Authentication
 					if wantSid, ok := ref[t]; ok && !expired[wantSid] && !breakIt {
 						if _, found := security.GetSessionCache().LookupNonExpired(wantSid); found {
 							// a live, known session existed for exactly this triple and was not used: allowed (not a violation of C07)
@@ -174,7 +184,7 @@ func runClientCache(c *Ctx) error {
 				default:
 					r = "ok full sid=~" // full handshake attempted and failed (broken connection)
 				}
-				log(fmt.Sprintf("chs tag=%s addr=%s cmd=%s answer=%s full=%s", strOrTilde(t.tag), t.addr, t.cmd, answer, full), r)
+				log(fmt.Sprintf("chs tag=%s addr=%s cmd=%s answer=%s req=%s full=%s", strOrTilde(t.tag), t.addr, t.cmd, answer, b01(req), full), r)
 			case k == 6 && len(sids) > 0 && c.Rng.Intn(2) == 0:
 				// a handshake that names a cached session by id (the pre-registered / claim-session
 				// path) under an arbitrary (tag, server, command): it resumes that session whatever the
@@ -187,7 +197,7 @@ func runClientCache(c *Ctx) error {
 				if _, found := security.GetSessionCache().LookupNonExpired(sid); !found {
 					answer = "sidNotFound"
 				}
-				neg, resumed, err := ccHandshake(cache, t, nil, false, false, sid)
+				neg, resumed, err := ccHandshake(cache, t, nil, false, false, sid, security.SecurityPreferred)
 				var sre *security.SessionResumptionError
 				r := "ok other"
 				switch {
